@@ -183,17 +183,29 @@ def gen_qr(r, P, tps, base_ts=None, mode=None):
         else:
             bits = dict(QR_SCALARS + SIG_SCALARS)[f]
             j[f] = bound_uint(r, bits)
+    if j.get('qq') and 'rq' in j and r.random() < 0.2:
+        # the response repeats the query's question section, names spelled in another letter case (a server that does not echo
+        # 0x20-mixed case): equal for DNS, different byte strings for the file
+        def flip(hx):
+            b = bytes.fromhex(hx)
+            return bytes((c ^ 0x20) if (65 <= c <= 90 or 97 <= c <= 122) and r.random() < 0.6 else c for c in b).hex()
+        j['rq'] = [dict(q, n=flip(q['n'])) for q in j['qq']]
+        if r.random() < 0.5:
+            j['rq'] = [dict(q) for q in j['qq']]      # ... or byte-identical
     return j
 
 
 def gen_aec(r, P, keys=None):
     if keys is not None and r.random() < 0.8:
-        return dict(r.choice(keys))
-    j = {'t': r.choice([0, 1, 2, 3, 4, 5, 255, bound_uint(r, 8)]), 'ip': P.ip().hex()}
-    if r.random() < 0.5:
-        j['code'] = bound_uint(r, 8)
-    if r.random() < 0.5:
-        j['tf'] = bound_uint(r, 8)
+        j = dict(r.choice(keys))
+    else:
+        j = {'t': r.choice([0, 1, 2, 3, 4, 5, 255, bound_uint(r, 8)]), 'ip': P.ip().hex()}
+        if r.random() < 0.5:
+            j['code'] = bound_uint(r, 8)
+        if r.random() < 0.5:
+            j['tf'] = bound_uint(r, 8)
+    if r.random() < 0.3:
+        j['cin'] = r.choice([1, 2, 7, 1000])       # stale count left in the input structure (must be ignored)
     return j
 
 
